@@ -193,6 +193,14 @@ fn pairs(a: &Args) {
                             }
                             id = u64::from_le_bytes(b);
                         }
+                        // "flip<k>": the items of the second group are those of the first group with bit k flipped (two
+                        // disjoint sets of one-bit twins: an identity-hashed item and its twin are different items)
+                        if let Some(k) = idmode.strip_prefix("flip").and_then(|x| x.parse::<u32>().ok()) {
+                            let first = gs[0].0;
+                            if ids.len() >= first && ids.len() < 2 * first {
+                                id = ids[ids.len() - first] ^ (1u64 << k);
+                            }
+                        }
                         while id == INITOBJ || ids.contains(&id) && n < 2000 {
                             id = rng.random::<u64>() & mask;
                         }
